@@ -40,7 +40,7 @@ COLLIDING = ["Client", "Server", "PACKET", "Net", "Map", "Pub", "Data", "Encrypt
              "Object", "Tuple", "Zip", "Isinstance", "Setattr", "Hasattr", "Any", "All", "Iter", "Next", "Super", "List", "Dict", "Type", "Int"]
 PATHS = ["", "net", "net/client", "net/server", "map", "pub", "pub/server"]
 FORBIDDEN = {"": {"net", "map", "pub"}, "net": {"client", "server"}, "pub": {"server"}}
-N_COLLISION = {"quick": 4, "thorough": 14}
+N_COLLISION = {"quick": 7, "thorough": 14}
 
 
 def collision_tree(seed, k):
